@@ -3,9 +3,11 @@
 package streams
 
 import (
+	"encoding/json"
 	"fmt"
 	"math/rand"
 	"sort"
+	"strings"
 	"time"
 
 	corev1 "k8s.io/api/core/v1"
@@ -671,7 +673,7 @@ func admCase(in *cq.Interner, s *scenario, real, marker policy.Evaluator) (cq.Ca
 		inner = marker
 	}
 	var fails []cq.GoFail
-	sample := map[string]interface{}{"cfg": s.Cfg, "marker_evaluator": s.Marker, "request": s.Req, "world": s.World}
+	sample := map[string]interface{}{"cfg": s.Cfg, "cfg_strings": cfgStrings(&s.Cfg), "marker_evaluator": s.Marker, "request": s.Req, "world": s.World}
 	obs := adm.Run(&s.Cfg, inner, &s.Req, &s.World)
 	if obs.Panic != "" || obs.Resp == nil {
 		sample["panic"] = obs.Panic
@@ -843,7 +845,7 @@ func f3Witness() scenario {
 func Adm(stream string, seed int64, n int, pf string, mix []string) (*cq.Set, *cq.Interner) {
 	r := rand.New(rand.NewSource(seed))
 	in := cq.NewInterner()
-	set := &cq.Set{Stream: stream, Seed: seed, Imports: "Model.Api Model.Pod Model.Checks Model.Admission Corr.Adm", CaseTy: "adm_case", RunFn: "run_adm " + pf,
+	set := &cq.Set{Stream: stream, Seed: seed, Imports: "Model.Api Model.Pod Model.Checks Model.Admission Model.Wire Corr.Adm", CaseTy: "adm_case", RunFn: "run_adm " + pf,
 		Rule: "admission requests drawn from the decision table of Validate: resource class x subresource (none / the 8 ignored / others) x operation x exemption hits and near-misses per dimension (empty, prefix, case change, value from another list) x dependency answers (lookup ok/err, object and old object ok/err/nil/wrong type, list ok/err, expiry index) x namespace label maps (valid, malformed) x defaults x pods on each side of each level; evaluator = real registry or marker evaluator (50/50); each case also runs the related requests (exemptions cleared, bare pod of the template, as CREATE, without subresource) and records the evaluator's direct answers; distinct by (config, request, world); non-trivial = at least one dependency call, evaluation or metric event"}
 	webProbes := 0
 	exemptHeavy = pf == "pf06" || pf == "pf07" || pf == "pf18" || pf == "pf_all"
@@ -896,4 +898,76 @@ func Adm(stream string, seed int64, n int, pf string, mix []string) (*cq.Set, *c
 		set.Rule += fmt.Sprintf("; %d of the namespace requests that reach the dry run were also POSTed to HandleValidate with and without ?timeout= (300ms..4s) and the deadline of the context ListPods received was checked against it", webProbes)
 	}
 	return set, in
+}
+
+// ---------------------------------------------------------------- replay of one recorded case (shrinking)
+
+// ReplayCfg is CfgSpec with the level:version pairs spelled out (api.Version does not survive JSON).
+type ReplayCfg struct {
+	Enforce, Audit, Warn string
+	ExNS, ExUsers, ExRCs []string
+	MaxPods              int
+	Timeout              time.Duration
+}
+
+func cfgStrings(c *adm.CfgSpec) ReplayCfg {
+	return ReplayCfg{Enforce: c.Defaults.Enforce.String(), Audit: c.Defaults.Audit.String(), Warn: c.Defaults.Warn.String(),
+		ExNS: c.ExNS, ExUsers: c.ExUsers, ExRCs: c.ExRCs, MaxPods: c.MaxPods, Timeout: c.Timeout}
+}
+
+func parseLV(s string) (api.LevelVersion, error) {
+	i := strings.Index(s, ":")
+	if i < 0 {
+		return api.LevelVersion{}, fmt.Errorf("bad level:version %q", s)
+	}
+	l, err := api.ParseLevel(s[:i])
+	if err != nil {
+		return api.LevelVersion{}, err
+	}
+	v, err := api.ParseVersion(s[i+1:])
+	if err != nil {
+		return api.LevelVersion{}, err
+	}
+	return api.LevelVersion{Level: l, Version: v}, nil
+}
+
+// AdmReplay re-runs one recorded admission case (the failing_case object of a replay file, possibly edited)
+// against the implementation and renders it as a one-case set for the relation pf.
+func AdmReplay(stream string, pf string, js []byte) (*cq.Set, *cq.Interner, error) {
+	var rec struct {
+		Cfg     ReplayCfg     `json:"cfg_strings"`
+		Marker  bool          `json:"marker_evaluator"`
+		Request adm.ReqSpec   `json:"request"`
+		World   adm.WorldSpec `json:"world"`
+	}
+	if err := json.Unmarshal(js, &rec); err != nil {
+		return nil, nil, err
+	}
+	var s scenario
+	var err error
+	if s.Cfg.Defaults.Enforce, err = parseLV(rec.Cfg.Enforce); err != nil {
+		return nil, nil, err
+	}
+	if s.Cfg.Defaults.Audit, err = parseLV(rec.Cfg.Audit); err != nil {
+		return nil, nil, err
+	}
+	if s.Cfg.Defaults.Warn, err = parseLV(rec.Cfg.Warn); err != nil {
+		return nil, nil, err
+	}
+	s.Cfg.ExNS, s.Cfg.ExUsers, s.Cfg.ExRCs, s.Cfg.MaxPods, s.Cfg.Timeout = rec.Cfg.ExNS, rec.Cfg.ExUsers, rec.Cfg.ExRCs, rec.Cfg.MaxPods, rec.Cfg.Timeout
+	s.Marker, s.Req, s.World = rec.Marker, rec.Request, rec.World
+	for _, o := range []*adm.ObjSpec{&s.Req.Object, &s.Req.Old} {
+		if (o.Kind == "pod" || (o.Kind == "controller" && o.HasTemplate)) && o.Pod == nil {
+			return nil, nil, fmt.Errorf("object of kind %s without a pod", o.Kind)
+		}
+	}
+	s.LVs = candidateLVs([]map[string]string{s.World.NSLabels, s.Req.Object.Labels, s.Req.Old.Labels}, s.Cfg.Defaults)
+	in := cq.NewInterner()
+	set := &cq.Set{Stream: stream, Seed: 0, Imports: "Model.Api Model.Pod Model.Checks Model.Admission Model.Wire Corr.Adm", CaseTy: "adm_case", RunFn: "run_adm " + pf, Rule: "replay of one recorded case"}
+	c, fails := admCase(in, &s, innerEvaluator(false), innerEvaluator(true))
+	set.GoFails = append(set.GoFails, fails...)
+	if c.Term != "" {
+		set.Cases = append(set.Cases, c)
+	}
+	return set, in, nil
 }
